@@ -360,6 +360,10 @@ def run(tier, seed):
         v.drift += x.drift
         v.models += x.models
         v.notes.update(x.notes)
+    # the epoll registration itself ("the library has stopped monitoring the descriptor"; one registration shared by the
+    # sources of a descriptor): Muxnote.tla + MuxnoteTrace.tla + drv_mux
+    from props.MUX import muxnote_element
+    muxnote_element(v, tier, seed)
     return v.finish()
 
 
